@@ -238,20 +238,20 @@ func fuzzPackage(u *vk.Unit, p *reg.Package, meta Meta, replay *FuzzCase, pkg st
 		return
 	}
 	var st *state
-	call := func(ctx context.Context, iface, method string, args []any) ([]any, error) {
+	call := securityAware(p, func(ctx context.Context, iface, method string, args []any) ([]any, error) {
 		if iface != reg.IfaceHandler || st == nil {
 			return nil, nil
 		}
 		st.handlerCalls++
 		st.handlerArgs = args
 		return st.response, st.respErr
-	}
+	})
 	srv, err := p.NewServer(reg.ServerConfig{Call: call})
 	if err != nil {
 		u.T.Fatalf("server: %v", err)
 	}
 	var captured RawRequest
-	cli, err := p.NewClient("http://example.com", reg.ClientConfig{HTTPClient: captureOnly{got: &captured}})
+	cli, err := p.NewClient("http://example.com", reg.ClientConfig{Call: call, HTTPClient: captureOnly{got: &captured}})
 	if err != nil {
 		u.T.Fatalf("client: %v", err)
 	}
